@@ -10,6 +10,7 @@ package main
 
 import (
 	"bytes"
+	"encoding/hex"
 	"errors"
 	"fmt"
 	"io"
@@ -79,6 +80,7 @@ type readIn struct {
 	AIn   int    `json:"ain"`   // 0 = nil attributes, 1 = fresh map
 	Pkt   *pktIn `json:"pkt"`   // RTP packet delivered (RTP reads)
 	RTCP  []int  `json:"rtcp"`  // RTCP packet kinds delivered (RTCP reads)
+	Raw   string `json:"raw,omitempty"` // explicit bytes (hex) instead of Pkt / RTCP
 	Trunc int    `json:"trunc"` // deliver only the first Trunc bytes (-1 = all)
 	AMode int    `json:"amode"` // 0 = transport returns the input map, 1 = nil, 2 = a map of its own
 	Err   int    `json:"err"`   // 0 = nil, else sentinel id (bytes are still put in the buffer)
@@ -247,7 +249,7 @@ type call struct {
 type transport struct {
 	mu      sync.Mutex
 	cfg     cfgIn
-	sent    map[uint16][]byte // app packets by sequence number (for recognising plain retransmissions)
+	sent    map[uint16][][]byte // app packets by sequence number (for recognising plain retransmissions)
 	script  map[int][]respIn
 	calls   map[int][]call
 	async   []call
@@ -699,7 +701,7 @@ func runCase(in caseIn) (res *result) { //nolint:cyclop,gocyclo,gocognit,maintid
 	}
 	tr := &transport{
 		cfg: c, script: map[int][]respIn{}, calls: map[int][]call{}, sentinels: b.sentinels,
-		cscript: map[int][]respIn{}, ccalls: map[int][][]rtcp.Packet{}, sent: map[uint16][]byte{},
+		cscript: map[int][]respIn{}, ccalls: map[int][][]rtcp.Packet{}, sent: map[uint16][][]byte{},
 	}
 	getSent := func(id int) error {
 		if id == 0 {
@@ -772,7 +774,7 @@ func runCase(in caseIn) (res *result) { //nolint:cyclop,gocyclo,gocognit,maintid
 			cl := cl
 			o.calls = append(o.calls, res.tbl.rtp(&cl.h, cl.payload, c))
 		}
-		tr.sent[orig.SequenceNumber] = keep
+		tr.sent[orig.SequenceNumber] = append(tr.sent[orig.SequenceNumber], keep)
 		tr.mu.Unlock()
 		res.wops = append(res.wops, o)
 	}
@@ -809,6 +811,12 @@ func runCase(in caseIn) (res *result) { //nolint:cyclop,gocyclo,gocognit,maintid
 			var raw []byte
 			var kinds []int64
 			switch {
+			case op.Raw != "":
+				var herr error
+				raw, herr = hex.DecodeString(op.Raw)
+				if herr != nil {
+					panic(herr)
+				}
 			case rtcpSide:
 				pk := []rtcp.Packet{}
 				for _, k := range op.RTCP {
@@ -1002,7 +1010,7 @@ func runCase(in caseIn) (res *result) { //nolint:cyclop,gocyclo,gocognit,maintid
 	for _, cl := range tr.async {
 		switch {
 		case c.RtxSSRC != 0 && c.RtxPT != 0 && cl.h.SSRC == c.RtxSSRC && cl.h.PayloadType == c.RtxPT:
-		case cl.h.SSRC == c.SSRC && bytes.Equal(tr.sent[cl.h.SequenceNumber], cl.payload):
+		case cl.h.SSRC == c.SSRC && anyEqual(tr.sent[cl.h.SequenceNumber], cl.payload):
 		case c.FecSSRC != 0 && c.FecPT != 0 && cl.h.SSRC == c.FecSSRC && cl.h.PayloadType == c.FecPT:
 			// repair packet for a retransmission that passed a FEC encoder below the responder
 		default:
@@ -1213,4 +1221,14 @@ func kindOf(p rtcp.Packet) int64 {
 	}
 
 	return 299
+}
+
+func anyEqual(xs [][]byte, b []byte) bool {
+	for _, x := range xs {
+		if bytes.Equal(x, b) {
+			return true
+		}
+	}
+
+	return false
 }
